@@ -11,7 +11,7 @@ Open Scope Z_scope.
 (** what the harness saw: a value, an error (kind code), or a panic caught by catch_unwind *)
 Inductive obs :=
 | OVal (v : sqlvalue)
-| OErr (kind : Z)        (* 1 TypeMismatch, 2 DivisionByZero, 3 Unsupported*, 0 anything else *)
+| OErr (kind : Z)        (* 1 TypeMismatch, 2 DivisionByZero, 3 Unsupported*, 4 TypeConversionError, 0 anything else *)
 | OPanic
 | OUnit.                 (* a call that returned normally without a value of interest (range_scan) *)
 
@@ -39,16 +39,16 @@ Definition not_modelled (c : case) : bool :=
 
 Definition run_model (p : profile) (c : case) : res sqlvalue :=
   match c with
-  | CBin m op a b => eval_binary_op run_temporal p m a op b
-  | CNeg v => unary_minus p v
+  | CBin m op a b => eval_binary_op run_temporal m a op b
+  | CNeg v => unary_minus v
   | CPlus v => unary_plus v
-  | CAbs v => abs_fn p v
+  | CAbs v => abs_fn v
   | CMod a b => mod_fn a b
-  | CSimdSum col => do z <- simd_sum_i64 p col; Ok (VBigint z)
+  | CSimdSum col => Ok (VBigint (simd_sum_i64 col))
   | CColAgg op vs => columnar_aggregate p 1024 op vs
   | CAccAgg avg distinct vs =>
       if avg then agg_avg run_temporal p distinct vs else agg_sum run_temporal p distinct vs
-  | CSubstr args => substring p args
+  | CSubstr args => substring args
   | CRange multi nonempty s e is ie =>
       do _ <- range_scan_outcome p multi nonempty s e is ie; Ok VNull
   end.
@@ -78,7 +78,7 @@ Definition val_same (a b : sqlvalue) : bool :=
   end.
 
 Definition err_code (e : err) : Z :=
-  match e with ETypeMismatch => 1 | EDivisionByZero => 2 | EUnsupported => 3 end.
+  match e with ETypeMismatch => 1 | EDivisionByZero => 2 | EUnsupported => 3 | EConversion => 4 end.
 
 Definition agrees (c : case) (m : res sqlvalue) (o : obs) : bool :=
   match m, o with
